@@ -1,0 +1,21 @@
+//go:build verif
+
+package types
+
+import (
+	codectypes "github.com/cosmos/cosmos-sdk/codec/types"
+)
+
+// Build tag verif only: MsgClaim / MsgConfirm carry their payload as an Any but do not
+// implement UnpackInterfaces, so after wire decoding the cached value is nil and
+// ValidateBasic rejects every wrapped claim/confirmation delivered through ABCI.
+
+func (m *MsgClaim) UnpackInterfaces(unpacker codectypes.AnyUnpacker) error {
+	var claim ExternalClaim
+	return unpacker.UnpackAny(m.Claim, &claim)
+}
+
+func (m *MsgConfirm) UnpackInterfaces(unpacker codectypes.AnyUnpacker) error {
+	var confirm Confirm
+	return unpacker.UnpackAny(m.Confirm, &confirm)
+}
